@@ -505,6 +505,7 @@ class Check:
             "violation_keys": {k: v["count"] for k, v in self.viol.items()},
             "known_findings_seen": [k for k, _, _ in kf],
             "inconclusive": self.inconclusive,
+            "minimum_observations": [{"counter": n, "observed": g, "required": r} for n, g, r in self.requirements],
         }
         if self.exhaustive is not None:
             cov["exhaustive"] = bool(self.exhaustive)
